@@ -131,7 +131,7 @@ pub fn hello_tree(case: &Case) -> (X, Vec<String>) {
     (root, uris)
 }
 
-fn hello_doc(case: &Case) -> (String, Vec<String>) {
+pub fn hello_doc(case: &Case) -> (String, Vec<String>) {
     let (root, uris) = hello_tree(case);
     let style = Style {
         base_prefix: case.prefixed.then(|| "nc".to_string()),
